@@ -1571,6 +1571,11 @@ func explore(t *testing.T, c *vlib.Ctx, sc Scenario, wide bool, bound int, ownsR
 			return
 		}
 		x, res := runScheduled(t, sc, wide, prefix)
+		if strings.HasPrefix(x.Diverged, "bubble panicked") && !res.fatal && !hung.Load() {
+			// a goroutine of the fixture outlived the execution (seen about once in 10^4 executions on an
+			// overloaded machine): run the same schedule once more before calling it a harness error
+			x, res = runScheduled(t, sc, wide, prefix)
+		}
 		mine := !root || ownsRoot
 		if mine {
 			st.Executions++
@@ -1640,7 +1645,7 @@ func TestCheck(t *testing.T) {
 			"free-running executions that return a deleted point in scenarios combining a delete with a cache snapshot match the finding already listed for C03 but cannot be attributed without a trace; they are counted (free_running_known_pattern) and not reported",
 			"executions that end in a deadlock, panic or hang are abandoned with their fixture (goroutines, descriptors); exploration of a scenario stops after 40 of them",
 		},
-		QuickBudgetS: 70, ThoroughBudgetS: 800, WorkerEnv: []string{"GOMAXPROCS=1"},
+		QuickBudgetS: 85, ThoroughBudgetS: 800, WorkerEnv: []string{"GOMAXPROCS=1"},
 		Run: func(c *vlib.Ctx) {
 			type job struct {
 				sc    Scenario
